@@ -3,7 +3,7 @@
 Oracle: 60-digit truncated Taylor arithmetic (jets) on the same expression tree; analyticity of
 the tree on every sampled disc is certified by complex ball arithmetic *before* anything is
 asserted, and the step configuration is constructed to stay inside half the certified radius.
-Envelope: |lib - exact| <= tol[method, n, k-bucket] * S_n + 64 eps (|exact| + |x| S_{n+1}).
+Envelope: |lib - exact| <= tol[method, n, cfg] * S_n + 64 eps (|exact| + |x| S_{n+1}).
 """
 import math
 import os
@@ -38,7 +38,7 @@ class C01(Prop):
     assumptions = (
         'mpmath 60-digit jet arithmetic is exact to < 1e-30 relative',
         'ball arithmetic certificate is conservative (outward rounding fudge 1e-9)',
-        'tolerance table tol[method, n, k-bucket] frozen in nverif/constants.json (k = number of derivative '
+        'tolerance table tol[method, n, cfg] frozen in nverif/constants.json (k = number of derivative '
         'estimates left after the finite-difference rule); cells marked null assert only: no exception, '
         'shape, finiteness',
     )
@@ -76,8 +76,9 @@ class C01(Prop):
             ctx.nontriv(dict(t=case['tree'], x=case['x'], m=method, o=order))
             ctx.sample(dc.summary(case, ev))
             return
-        bucket = dc.kbucket(ev.k_est)
-        ctx.count('kbucket=%s' % bucket)
+        bucket = dc.cfgclass(case)
+        ctx.count('k_est=%s' % dc.kbucket(ev.k_est))
+        ctx.count('cfg=%s' % bucket)
         tol = tol_for(self.table, method, n, bucket)
         ctx.count('cell|%s|%d|%s' % (method, n, bucket))
         nontrivial = False
